@@ -1,21 +1,21 @@
-SPECIFICATION Spec
+SPECIFICATION PathSpec
 CONSTANTS
   Mode = "seq"
-  Seqs = {1, 2, 3}
+  Seqs = {1, 2, 3, 4, 5, 6}
   Sizes = {1, 2}
-  MaxSlots = 2
-  MaxBytes = 4
+  MaxSlots = 4
+  MaxBytes = 16
   LiveSizes = {1}
   MaxHist = 0
   ResetOnEmpty = TRUE
   BUG_ResetEarly = FALSE
   BUG_NoVirtual = FALSE
-  PathK = 0
-  PathM = 0
+  PathK = 4
+  PathM = 2
   PathMul = 1
   PathMod = 7
   PathAll = FALSE
-INVARIANTS NotBad TypeOK Agree
-VIEW View
-
+INVARIANTS TypeOK Agree
+VIEW ViewP
+CONSTRAINT EmitLeaf
 CHECK_DEADLOCK FALSE
